@@ -80,7 +80,9 @@ func (r *Run) Unresolved(rule, what string) {
 // Require asserts the minimum number of instances a rule must have matched.
 func (r *Run) Require(rule string, n int) { r.minReq[rule] = n }
 
-func (r *Run) Note(format string, a ...interface{}) { r.Notes = append(r.Notes, fmt.Sprintf(format, a...)) }
+func (r *Run) Note(format string, a ...interface{}) {
+	r.Notes = append(r.Notes, fmt.Sprintf(format, a...))
+}
 
 func (r *Run) Analysed(fn string) { r.Funcs[fn] = true }
 
